@@ -439,3 +439,8 @@ for _d in variants_loops.L:
 v('prefix-C15-exact-panics', ['C15'], LR, """                // the product may exceed u32::MAX: it is then larger than a - 1
                 other.start().saturating_mul(self.end() - self.start())
                     >= self.start().saturating_sub(1)""", "                mul32(other.start(), self.end() - self.start()) >= self.start().saturating_sub(1)", 'C15.R6/right_mul_is_exact/panic')
+
+# ---- helper family
+import variants_helpers
+for _d in variants_helpers.L:
+    V.append(dict(_d))
